@@ -303,6 +303,15 @@ def run_library(cfg, frs, rng, tid, retag=True, via_bam=False):
         raised = raised2
     ev = {'ev': 'lib', 'tid': tid, 'kind': kind, 'hd': cfg['hd'], 'radius': cfg['radius'], 'cap': cfg['cap'], 'cache': cache,
           'readlen': cfg['readlen'], 'pooling': cfg['pooling'], 'sched': -1, 'frags': frags, 'rounds': rounds, 'raised': raised}
+    if cfg.get('reuse') and not raised:
+        # history on ONE iterator object: first iteration abandoned after the first molecule handed out (needs an ejection or an
+        # overflow before the end: check on every fragment, small cache), then a complete second iteration; reference = a fresh
+        # iterator with the same settings
+        rc = 2 * (max([e - s for d, pair, s, e in built] + [1]) + (0 if kind == 'nla' else cfg['radius']) + 8)
+        kw = dict(hd=cfg['hd'], radius=cfg['radius'], cap=cfg['cap'], pooling=cfg['pooling'], sched=0, cache=rc, tags=True)
+        fresh, ra = iterate(kind, reads, **kw)
+        reused, rb = iterate(kind, reads, reuse=True, **kw)
+        ev['reuse'] = {'sched': 0, 'cache': rc, 'raised': ra or rb, 'fresh': fresh, 'reused': reused}
     return ev
 
 
@@ -355,14 +364,29 @@ def mode_c06(emit, tier, rng):
     tid = 0
     for cfg, frs in directed_libraries():
         tid += 1
-        emit(run_library(cfg, [dict(d) for d in frs], rng, tid))
+        emit(run_library(dict(cfg, reuse=bool(cfg.get('cap'))), [dict(d) for d in frs], rng, tid))
+    # re-use history, directed: molecules at two far sites / on two contigs / with a cap (something is handed out early)
+    u, v = [0, 1, 2], [3, 3, 0]
+    for kind in ('nla', 'chic', 'plain'):
+        for pooling in (0, 1):
+            for cap in (0, 2):
+                base = {'kind': kind, 'pooling': pooling, 'readlen': SINGLE, 'radius': 0, 'cap': cap, 'hd': 0, 'dup_mode': 'given',
+                        'reuse': True}
+                mkf = lambda site, umi, contig=1, flen=8, dup=False: {'cell': 1, 'contig': contig, 'strand': 0, 'site': site, 'flen': flen,
+                                                                        'rlen': SINGLE, 'clip': 0, 'umi': umi, 'valid': True, 'how': '', 'dup': dup}
+                tid += 1
+                emit(run_library(base, [mkf(100, u), mkf(100, u, flen=9, dup=True), mkf(100, u, flen=10), mkf(100, v), mkf(400, u),
+                                        mkf(400, u, flen=9), mkf(700, v), mkf(700, v, flen=9), mkf(700, v, flen=10)], rng, tid))
+                tid += 1
+                emit(run_library(base, [mkf(100, u), mkf(100, u, flen=9), mkf(100, u, contig=2), mkf(100, u, contig=2, flen=9),
+                                        mkf(100, v, contig=3), mkf(100, v, contig=3, flen=9)], rng, tid))
     n = 300 if tier == 'quick' else 6000
-    for _ in range(n):
+    for k in range(n):
         cfg, frs = gen_library(rng, tier)
         if not frs:
             continue
         tid += 1
-        emit(run_library(cfg, frs, rng, tid))
+        emit(run_library(dict(cfg, reuse=(k % 2 == 0)), frs, rng, tid))
     # history through a real BAM file: round 1 tagged in memory, written coordinate-sorted, round 2 reads the file
     # (order of equal coordinates may change, so only configurations whose partition does not depend on the order)
     nb, done = (25 if tier == 'quick' else 400), 0
@@ -499,6 +523,20 @@ def directed_sequences():
         cfg4 = dict(cfg, radius=4)
         h4 = h - 4
         out.append(('chic', cfg4, [f(1, 110, 10), f(1, 114, 13), f(1, 115 + h4, h4, umi=(3, 3)), f(1, 118, 2)]))
+    # plain fragments, exact UMIs: a short first member, a longer later member (same start), then a fragment of the same cell /
+    # UMI that shares only the END of the longer member (and the mirror image on the reverse strand): both pooling methods
+    # must group all three
+    for cache in (40, 400):
+        cfg = {'hd': 0, 'radius': 0, 'cache': cache, 'readlen': SINGLE, 'keep_order': True}
+        out.append(('plain', cfg, [f(0, 90, 6, umi=(3, 3)), f(0, 100, 6), f(0, 100, 16), f(0, 100, 16, cell=2), f(0, 108, 8), f(0, 150, 6, umi=(3, 3)),
+                                   f(0, 150, 6, umi=(3, 3))]))
+        out.append(('plain', cfg, [f(0, 100, 6), f(0, 100, 10), f(0, 100, 16), f(0, 105, 11), f(0, 108, 8)]))
+        # reverse strand (anchor = end): first member [104,120), later member [100,120) extends to the left, candidate [100,110)
+        out.append(('plain', cfg, [f(1, 120, 20), f(1, 110, 10), f(1, 120, 16)]))
+        out.append(('plain', cfg, [f(1, 120, 16), f(1, 120, 20), f(1, 110, 10)]))
+        # finding D61: the candidate matches an INTERIOR member only (end 110 < envelope end 115, start 102 > envelope start 100):
+        # pooling 0 (member comparison) groups it, pooling 1 (envelope comparison) does not
+        out.append(('plain', cfg, [f(0, 100, 10), f(0, 100, 15), f(0, 102, 8)]))
     return out
 
 
